@@ -1202,6 +1202,28 @@ pub fn c08(ctx: &mut Ctx, acc: &mut Acc) -> i32 {
                     }
                 }
             }
+            // the same value with tuples / enums written by a newer writer (header + chunks the reader skips): a cut inside
+            // the chunks that are only skipped must be noticed too
+            if idx % 2 == 1 {
+                if let Some(nb) = newer_tuple_encoding(ctx, TAG_C08, id, idx, &ty, &v) {
+                    if nb.len() <= 2048 {
+                        for k in 0..nb.len() {
+                            let prefix = &nb[..k];
+                            acc.case(Some(sig(&[id.as_bytes(), b"newer", prefix])));
+                            match sbase::dec(s, prefix) {
+                                Call::Err(_) => acc.count("rejected_newer_tuples"),
+                                other => {
+                                    let class = if other.is_ok() { "decoded_ok".to_string() } else { other.class() };
+                                    acc.violation(
+                                        format!("C08|{id}|newer_tuples|{class}"),
+                                        replay_decode("C08", id, prefix, "strict prefix of a reference encoding whose tuples / enums come from a newer writer").with("full_len", J::u(nb.len() as u64)).with("cut", J::u(k as u64)),
+                                    );
+                                }
+                            }
+                        }
+                    }
+                }
+            }
         }
         acc.count("types");
     }
